@@ -186,13 +186,18 @@ package token
 //@ func Parse
 //@   safe
 //@   props C09 C12
-//@   modifies nothing
+//@   requires unlocked: !held(tokens.mu)
+//@   -- (looking a stateful token up may reload the token file)
+//@   modifies held(tokens.mu), tokens.modTime, tokens.fileSize, tokens.tokens
+//@   ensures unlocked: !held(tokens.mu)
 //@   -- (on failure the result may be a non-nil interface holding a nil *Stateful: callers test the error first)
 //@   ensures found: result1 == nil ==> result0 != nil && ref(result0) != 0
 //@
 //@ -- ------------------------------------------------------------------ the stateful-token store (C16, C13)
 //@ -- the token table, its file name and the version of the file it mirrors are only touched with the state's mutex held
 //@ guarded state.mu: filename fileSize modTime tokens
+//@ -- (the package-level state is a global mutex: its lock ghost survives calls that do not name it)
+//@ guarded var tokens.mu: filename fileSize modTime tokens
 //@ global token-errors-set: ErrTagMismatch != nil && os.ErrNotExist != nil && io.EOF != nil
 //@
 //@ -- invariant of the table (what the mutex protects): no nil entries.  Assumed when a public method takes the lock,
